@@ -212,6 +212,29 @@ func (e *Engine) load(patterns []string) error {
 		}
 		e.funcs[fn.String()] = fn
 	}
+	// sort hints: memory keys of boolean struct fields (needed when a 'modifies' clause names the
+	// key before any load or store of the function has used it)
+	for _, p := range prog.AllPackages() {
+		if p.Pkg == nil {
+			continue
+		}
+		sc := p.Pkg.Scope()
+		for _, n := range sc.Names() {
+			tn, ok := sc.Lookup(n).(*types.TypeName)
+			if !ok {
+				continue
+			}
+			st, ok := tn.Type().Underlying().(*types.Struct)
+			if !ok {
+				continue
+			}
+			for i := 0; i < st.NumFields(); i++ {
+				if b, ok := st.Field(i).Type().Underlying().(*types.Basic); ok && b.Info()&types.IsBoolean != 0 {
+					e.keyHints[typeKey(tn.Type())+"."+st.Field(i).Name()] = SBool
+				}
+			}
+		}
+	}
 	return nil
 }
 
